@@ -89,6 +89,11 @@ def cases(tier, seed):
             for c in (cur[1], cur[6]):
                 out.append(dict(fam="run", dev=d, dens="coarse", cur=c, field="static", adaptive=False, k=2, screening=False, units="um", seeded=False,
                                 prior=prior))
+    # magnitudes: the same assignments nine decades smaller and three decades larger (zero field, so that the injected current is the only scale)
+    for d in ("G1", "G3", "G4"):
+        cur = CURRENTS[len(TERMS[d])]
+        for c, sc in itertools.product((cur[0], cur[1], cur[6]), (1e-9, 1e3) if not quick else (1e-9,)):
+            out.append(dict(fam="run", dev=d, dens="coarse", cur=c, field="zero", adaptive=False, k=2, screening=False, units="um", seeded=False, cur_scale=sc))
     # acceptance
     scales = ["1", "0.1"] if quick else ["1", "0.1", "1/3", "0.001"]
     for d in ("G1", "G3", "G4"):
@@ -184,7 +189,7 @@ def run_run(case):
     prior = case.get("prior")
     dev = zoo.device(case["dev"], density=case["dens"], units=case["units"], memo=(prior is None))
     names = TERMS[case["dev"]]
-    cs = 0.25 * CURR_SCALE[case["units"]]  # the invariant is linear in the currents: keep the drive gentle
+    cs = 0.25 * CURR_SCALE[case["units"]] * case.get("cur_scale", 1.0)  # the invariant is linear in the currents: keep the drive gentle
     arg, func = current_func(case["cur"], names, cs)
     fs = FIELD_SCALE[case["units"]]
     if case["field"] == "zero":
